@@ -80,8 +80,8 @@ PROPS = {
         level_text='Theorem C14_absolute_range_denotes_the_lexeme: the absolute range attached to a token denotes, in the whole document, exactly the bytes of the lexeme in the parse buffer, for every prefix/buffer/range. '
                    'Partial: monotonicity, disjointness and attribute ranges are decided by the correspondence run (all source locations incl. attribute name/value) and by oracle_c14 on the implementation.',
         level_note='Trusted as C01. A genuine defect (valueless attribute locations) was repaired, see known_findings.txt.'),
-    'C07': dict(coq=['props/C07.vo'], families=[('l2edit', 1200, 30000), ('l2mixed', 800, 20000)], projections=['out_bytes', 'handlers'], oracle=oracle_none,
-        technique=LAWS,
+    'C07': dict(coq=['props/C07.vo'], families=[('l2edit', 1200, 30000), ('l2mixed', 800, 20000)], projections=['out_bytes', 'handlers'], oracle=oracle_c07, classify=classify_c07,
+        technique=LAWS + '; reference editor = the Coq model modulo re-tokenisation; independent untouched-tags-survive invariant on the implementation',
         level_text='Theorems C07_*: token-level laws for every token and operation sequence: serialisation = before ++ (self | replacement) ++ after; before appends, after prepends, replace overwrites, remove keeps insertions; '
                    'untouched tokens and untouched attributes are emitted verbatim. Partial: the stream-level statement (content removal, deferred end-tag edits, exact output = reference edit) is decided by the correspondence run: '
                    'the model of Element/StartTag/EndTag/Comment/TextChunk/Doctype/DocumentEnd mutations is executed on random operation scripts and must produce the same bytes and the same handler observations.',
